@@ -65,7 +65,82 @@ def k_figure_tax(d):
     return {'reproduced': not ok, 'detail': 'figure_tax(%r)=%r schedule=%s' % (x, got, float(want))}
 
 
-KINDS = {'figure_tax': k_figure_tax}
+def run_solve(year, form_names, inputs, prompt_answers=None):
+    """Run the real Solver on an input assignment.  Returns a JSON-able dict."""
+    import configparser
+    from habutax import forms, inputs as hinputs, solver as hsolver
+    cp = configparser.ConfigParser()
+    for name, text in inputs.items():
+        sec, key = name.split('.', 1)
+        if not cp.has_section(sec):
+            cp.add_section(sec)
+        cp.set(sec, key, text.replace('%', '%%'))
+    store = hinputs.InputStore(cp)
+    s = hsolver.Solver(store, forms.available_forms[year], prompt=None)
+    out = {'exception': None, 'solved': None, 'solution': {}, 'unimplemented': [], 'unmet_inputs': {}, 'unmet_fields': {}, 'forms': []}
+    import sys as _sys
+    old = _sys.getrecursionlimit()
+    try:
+        out['solved'] = bool(s.solve(list(form_names)))
+        sol = s.solution()
+        for sec in sol.sections():
+            for k, v in sol[sec].items():
+                out['solution'][sec + '.' + k] = v
+        out['unimplemented'] = list(s.unimplemented_fields())
+        out['unmet_inputs'] = s.unmet_input_dependencies()
+        out['unmet_fields'] = s.unmet_field_dependencies()
+        out['forms'] = sorted(s.forms)
+    except BaseException as e:  # noqa
+        import traceback
+        tb = traceback.extract_tb(e.__traceback__)
+        out['exception'] = {'type': type(e).__name__, 'msg': str(e)[:300], 'where': ['%s:%d:%s' % (f.filename.split('/habutax/')[-1], f.lineno, f.name) for f in tb[-4:]]}
+    return out
+
+
+def k_solve(d):
+    out = run_solve(d['year'], d['forms'], d['inputs'])
+    exp = d.get('expect')
+    if exp is None:
+        return out
+    return {'reproduced': eval_expect(exp, out), 'detail': summarize(out, exp), 'result': out}
+
+
+def eval_expect(exp, out):
+    """exp: dict describing the violating behaviour to confirm."""
+    k = exp['kind']
+    if k == 'solved':
+        return out['solved'] is True and out['exception'] is None
+    if k == 'exception':
+        e = out['exception']
+        return e is not None and (exp.get('type') is None or e['type'] in exp['type'])
+    if k == 'line_differs':
+        # solved value of line differs from an expected decimal by more than tol
+        v = out['solution'].get(exp['line'])
+        if v is None:
+            return False
+        try:
+            got = Fraction(v)
+        except ValueError:
+            return False
+        return abs(got - Fraction(exp['expected'])) > Fraction(exp.get('tol', '0.005'))
+    if k == 'line_negative':
+        v = out['solution'].get(exp['line'])
+        return v is not None and Fraction(v) < 0 and (not exp.get('need_solved') or out['solved'] is True)
+    raise ValueError(k)
+
+
+def summarize(out, exp):
+    bits = ['solved=%s' % out['solved']]
+    if out['exception']:
+        bits.append('exception=%s at %s' % (out['exception']['type'], out['exception']['where'][-1:]))
+    if 'line' in exp:
+        bits.append('%s=%s' % (exp['line'], out['solution'].get(exp['line'])))
+    if out['unimplemented']:
+        bits.append('unimplemented=%s' % out['unimplemented'][:4])
+    return ' '.join(bits)
+
+
+KINDS = {'figure_tax': k_figure_tax, 'solve': k_solve}
 
 
 def main():
